@@ -64,6 +64,17 @@ NOTES = {
  "C06-w10m2": "missed at first: no two commodities differed only in case. 'usd' joined 'USD' in the commodity pool; then caught by C06, C05 and C02.",
  "C03-w10m1": "missed at first: accounts were closed only at the end of the journal, and no account name was a string prefix of a sibling's. 12% of the journals now open and early-close an unused account named like the parent of, or one letter shorter than, an account that holds positions; then caught by C03 and C16.",
  "C01-w10m1": "C01 stays silent: under the serialising scheduler an unwaited worker values a whole chunk in one step, so both postings of a pair are valued or neither, and Delta stays zero. Missed by C19 at first too (no day had 256 transactions); the race engine's large journals now put most bookings on one day in half of the cases; then caught by C19 (data race in valuateDay).",
+ "C18-w11m2": "missed at first: infer --inplace always succeeded in the fault-free run. A fifth of the infer cases now fail before anything is written (target that does not parse, training journal with a missing include); a failing infer must leave its target bit-identical; then caught (failed-command-modified-file).",
+ "C15-w11m2": "C15 stays silent: under the serialising scheduler a worker handles a booking in one step, so the shared scratch buffer is never seen half-written. Missed by C19 at first too (infer was not among the race engine's commands, and no target had 512 directives); the race engine now also runs infer on targets of 520-900 bookings; then caught by C19 (data race in bayes).",
+ "C04-w11m1": "missed at first: no journal had directives on 31 December of a leap year and on the following 1 January. Two anchors at the turn of 2020/21 and 2024/25 were added; then caught by C04 (spurious rejection) and C02 (wrong cell at 2020-12-31).",
+ "C06-w11m1": "missed at first: the import sub-check passed one statement per run. revolut2 now also gets two or three statements (one per currency) with bookings on the same days; then caught (import:line-order).",
+ "C06-w11m2": "missed at first: two files with the same include spelling, the same name and a same-day quote at the same offset did not occur. price-conflict now has a twin layout (a/index.knut and b/index.knut each include \"prices.knut\"); then caught (price-conflict:content).",
+ "C14-w11m2": "at first no verdict (exit 2): os.SameFile was not modelled; now it is (inode identity). infer -t <journal> <journal> joined C14's command set, so that include-graph errors are also tried with infer training on its target; then caught (error-swallowed:include-cycle2).",
+ "C03-w11m1": "missed at first: C03 always passed --close=false. The valuation reference now models period closing (income, expense and mirrored income rows restart at each period start, the previous total moves to Equity:Equity), and half of C03's cases leave closing on; then caught (wrong-value on Equity:Equity).",
+ "C09-w11m1": "caught because the generator had just learnt to spell the root path with a redundant element (./ or zz/../) for C09, an addition made after reading this change's description; recorded as after strengthening.",
+ "C14-w11m1": "caught after a Cyrillic and a long umlaut segment joined the non-ASCII segment pool (added after reading this change's description); before, 'Übrig' and '日本' were never the widest cell of their column.",
+ "C01-w11m2": "missed at first: quantities had at most 4 decimals. A twentieth of C01's cases now append 5-14 further digits to every booked quantity (no assertions or closes on them) and report with --digits 20; then caught (Delta of 2e-10).",
+ "C05-w11m1": "at first no verdict (exit 2): os.DirFS was not modelled; now it is (an fs.FS over simfs with fs.ValidPath like the real one). Then still missed: the root file was always in the top directory, so no include climbed above it. A fifth of the layouts now put the root file into books/; then caught by C05 and C04.",
 }
 DROPPED = [
  "C04 (wave 7, first change): Builder.Build skips the day sort while days 'arrive in ascending order'; the same idea as C05-m2 (caught by C04, C05, C19).",
